@@ -315,10 +315,32 @@ theorem mulNormalizedWordsL_eq {W : Nat} {r : Ring} (hwf : r.WF W) (hW4 : 4 ≤ 
       simp only [e, bind, Except.bind, pure, Except.pure]
       congr 1
       rw [← hp1, ← o4, Nat.add_comm, Nat.add_mul_mod_self_right, Nat.mod_eq_of_lt o3]
-    · rw [if_neg hgt, if_neg hgt, hndv, hp1]
+    · rw [if_neg hgt, if_neg hgt]
+      have hl : p1.length = (r.ndWords W).length := by
+        rw [hlen, s4, pl]; exact Nat.max_eq_left (by omega)
+      rw [cmpSameLen_spec W p1 (r.ndWords W) hl s5 hndw, hndv, hp1]
       by_cases hge : a * b / 2 ^ r.k ≥ r.M
-      · rw [if_pos hge, if_pos hge]
-      · rw [if_neg hge, if_neg hge]
+      · have hc : compare (a * b / 2 ^ r.k) r.M ≠ .lt := fun h => by
+          have := Nat.compare_eq_lt.1 h; omega
+        rw [if_pos hc, if_pos hge]
+        have ⟨t1, t2, t3, t4⟩ := subSameLen_spec W p1 (r.ndWords W) 0 s5 hndw hl (by omega)
+        generalize subSameLen W p1 (r.ndWords W) 0 = q at t1 t2 t3 t4
+        obtain ⟨p2, bw⟩ := q
+        simp only at t1 t2 t3 t4 ⊢
+        have hlt := val_lt W p2 t3
+        rw [t2] at hlt
+        rw [hndv, hp1] at t1
+        generalize 2 ^ (W * p1.length) = P at t1 hlt
+        have hb : bw = 0 := by
+          rcases Nat.eq_zero_or_pos bw with h | h
+          · exact h
+          · have : bw = 1 := by omega
+            subst this; omega
+        subst hb
+        simp only [ne_eq, not_true_eq_false, if_false]
+        congr 1; omega
+      · have hc : ¬ compare (a * b / 2 ^ r.k) r.M ≠ .lt := fun h => h (Nat.compare_eq_lt.2 (by omega))
+        rw [if_neg hc, if_neg hge]
 
 theorem mulRawKL_eq {W : Nat} {r : Ring} (hwf : r.WF W) (hW4 : r.kind = .large → 4 ≤ W)
     (hkW : r.kind = .large → r.k < W) (u b : Nat) :
